@@ -66,7 +66,7 @@ tbl = '\n'.join(out)
 p = '/verif/DESIGN.md'
 s = open(p).read()
 i = s.index('| seeded id | property | change (by an independent sub-agent)')
-j = s.index('Lessons kept in the machinery:')
+j = s.index('### 12.5 Silence on the unchanged tree')  # (an earlier version cut at 'Lessons kept…' and wiped 12.5)
 s = s[:i] + tbl + '\n\n' + s[j:]
 import re
 s = re.sub(r'All \d+ \(.*?\nlast column', f'All {n} live ones (up to four rounds per property; later rounds were told only which mechanisms the earlier ones had used; {retired} more were\nretired when a repair of /repo made them harmless, see their rows) are\ndetected by the quick check of their own property; {miss} were missed when first tried and led to the strengthening noted in the\nlast column', s, count=1, flags=re.S)
